@@ -110,7 +110,7 @@ def body_hash(j):
 
     def strip(x):
         if isinstance(x, dict):
-            return {k: strip(v) for k, v in x.items() if k not in ("sp", "fn_sp", "span", "hash", "src", "line")}
+            return {k: strip(v) for k, v in x.items() if k not in ("sp", "fn_sp", "span", "hash", "src", "line", "track_caller")}
         if isinstance(x, list):
             return [strip(v) for v in x]
         return x
@@ -514,6 +514,10 @@ def inline_helpers(fns_json):
                 nj2 = splice_closure_calls(nj, by_key)
                 if nj2 is not nj:
                     nj = thread_known_ctors(nj2)
+                elif is_changed(j) and not _TAG_CONV.search(j["key"]):
+                    # a spliced helper that returns `Some(..)` / `None` / `Ok` / `Err` at different points and is matched
+                    # on directly (no `?` in between): thread each return to the arm its constructor selects
+                    nj = thread_known_ctors(nj)
             except Exception:
                 import traceback
 
